@@ -35,6 +35,7 @@ def run(ck):
     # the slider part of every attack set is a table lookup: reader and table fill must use the same slot for the same (square, blockers) (C09's M3)
     from . import c09 as _c09
     ck.run_rule(_c09.m3_reader_writer, {})
+    ck.run_rule(_c09.m9_lookups_are_pure)
 
 
 def board_fields(ck):
@@ -277,7 +278,14 @@ def b6_from_occupancy(ck):
         if aa[1] != result:
             ck.fail("B6.accumulate", "bitor@L%d" % t["line"], b.where(t["line"]), "something other than this piece's attacks is merged in: %s" % show(aa[1])[:100])
             continue
-        g = [(c, tk) for c, tk in guards_of(prog, b, bb, tb) if c[0] == "call" and c[1].endswith("::eq")]
+        allg = guards_of(prog, b, bb, tb)
+        g = [(c, tk) for c, tk in allg if c[0] == "call" and c[1].endswith("::eq")]
+        # besides the loops' own "there is another piece / square" tests nothing may stand between a piece and its contribution:
+        # a fast path that skips some pieces (boxed in, far away, ..) drops their attacks from the union
+        skip = [(c, tk) for c, tk in allg if (c, tk) not in g and not (
+            c[0] == "discr" and any(x[0] == "call" and (is_iter_next(x[1]) or x[1].split("::")[-1] in ("pop", "next", "first_one", "last_one")) for x in walk(c)))]
+        ck.req(not skip, "B6.every_piece", "bitor@L%d" % t["line"], b.where(t["line"]),
+               "a piece's attacks are merged only under %s: pieces failing that test are left out of the attack set" % [(show(c)[:70], tk) for c, tk in skip][:2])
         if not g:
             uncond += 1
         else:
